@@ -66,7 +66,7 @@ CLAIMED = {
             "DESIGN.md §3 C13"),
     "C05": ("fault_enumeration",
             "online/offline trace-specification checker: parenthesis automaton over provider firings, Aspect enter/exit, Enter/Exit and Step events with fault injection at every firing position; payloads read from the protobuf request given to real WASM Aspects",
-            "Generated call trees run unbound / disabled / with 0-3 real Aspects per join point / with a provider failure injected at every firing position x error kinds / with trapping and gas-exhausting Aspects / with the enable flag toggled between calls and from inside a re-entrant provider callback. Every CALL frame whose target has code gets exactly one pre firing before its first instruction and one post firing after its last and after all nested calls; nothing fires elsewhere or after a failed pre; each Aspect's request carries that call's caller, callee, calldata, value, gas, call-tree index and (post) the callee's own return data and error.",
+            "Generated call trees run unbound / disabled / with 0-3 real Aspects per join point / with a provider failure injected at every firing position x error kinds / with trapping and gas-exhausting Aspects / with the enable flag toggled between calls and from inside a re-entrant provider callback / with callees that end with exactly 0, 1, 2 gas left. Every CALL frame whose target has code gets exactly one pre firing before its first instruction and one post firing after its last and after all nested calls; nothing fires elsewhere or after a failed pre; each Aspect's request carries that call's caller, callee, calldata, value, gas, call-tree index and (post) the callee's own return data and error.",
             "Payload checks need an Aspect bound; call index from the shadow attempt log; code size and enable flag read at frame entry.",
             "DESIGN.md §3 C05"),
     "C06": ("fault_enumeration",
@@ -76,12 +76,12 @@ CLAIMED = {
             "DESIGN.md §3 C06"),
     "C12": ("exploration",
             "pairwise differential on the fork itself (journal instruction + padding vs pops of equal length) with aligned-step comparison and fee accounting; malformed-operand halts checked per fork",
-            "For generated call trees containing all eight journal opcodes with well-formed operands in static and non-static frames on Frontier..Cancun: result, logs, post-state and every aligned step (pc, op, depth, full stack, memory, return data) equal the pops program's; each journal step costs one non-zero constant (cross-case: one value over all forks); leftover difference equals the predicted sum. Malformed operand sets halt the frame with all gas gone, effects reverted, caller sees 0.",
+            "For generated call trees containing all eight journal opcodes with well-formed operands in static and non-static frames on Frontier..Cancun: result, logs, post-state and every aligned step (pc, op, depth, full stack, memory, return data) equal the pops program's; each journal step costs one non-zero constant (cross-case: one value over all forks); leftover difference equals the predicted sum; every journal opcode behaves like its pops at stack heights up to 1024. Malformed operand sets (incl. name/key pointers and lengths outside the frame's memory) halt the frame with all gas gone, effects reverted, caller sees 0.",
             "Programs are gas/code-insensitive by construction; well-formedness per the C09/C11 models.",
             "DESIGN.md §3 C12"),
     "C14": ("exploration",
             "boundary monitor with recording host callbacks + strict reference decoders (big-integer ABI (bytes,bytes) decoder, address+key, 32-byte hash) over generated hostile payloads for all four call kinds and caller depths",
-            "A contract at depth 1-3 calls 0x64/0x65/0x66 by CALL/CALLCODE/DELEGATECALL/STATICCALL on Istanbul..Cancun with payloads of length 0..400, canonical encodings with head/length words replaced by boundary values up to 2^256-1, truncations and random bytes; the host callbacks record exactly what they receive. Well-formed: exactly one callback with exactly the decoded arguments, return data = host answer, fee 5000, write attributed to the calling contract (other call kinds may refuse); malformed: no callback, failure, all gas consumed; host error propagates; pre-Berlin: no callback; never a panic.",
+            "A contract at depth 1-3 calls 0x64/0x65/0x66 by CALL/CALLCODE/DELEGATECALL/STATICCALL on Istanbul..Cancun with payloads of length 0..400, canonical encodings with head/length words replaced by boundary values up to 2^256-1, truncations and random bytes; several contracts writing through 0x66 in one EVM instance; one EVM moved across the Berlin block with SetBlockContext; the host callbacks record exactly what they receive. Well-formed: exactly one callback with exactly the decoded arguments, return data = host answer, fee 5000, write attributed to the calling contract (other call kinds may refuse); malformed: no callback, failure, all gas consumed; host error propagates; pre-Berlin: no callback; never a panic.",
             "Non-canonical in-bounds encodings may be accepted or rejected; five deliberate lenient-success behaviours for truncated payloads are recorded as known findings.",
             "DESIGN.md §3 C14"),
     "C15": ("exploration",
@@ -96,12 +96,12 @@ CLAIMED = {
             "DESIGN.md §3 C16"),
     "C03": ("exploration",
             "hostile-input runtime monitoring in address-space-capped, journaling worker processes: panic/fatal-error detection at the entry-point boundary + post-condition assertions on hooked state (cursor, depth, static flag, follow-up Start) + read-cap sentinel",
-            "Random byte strings as code (biased to journal opcodes, Artela precompile calls, boundary pushes) x calldata x forks Frontier..Cancun x six entry points; for each journal opcode every operand position swept over boundary values 0..2^256-1 and memory-length-relative values, plus random combinations, under hostile memory and storage shapes (invalid encodings, lengths 2^12..2^64-1); every call kind to 0x64-0x66 from depth 1 and 3 with truncated/overflowing payloads; byte-mutated journal programs. No panic may escape, no worker may die, bookkeeping must be closed and a follow-up call announced as a depth-0 Start.",
+            "Random byte strings as code (biased to journal opcodes, Artela precompile calls, boundary pushes) x calldata x forks Frontier..Cancun x six entry points; for each journal opcode every operand position swept over boundary values 0..2^256-1 and memory-length-relative values, plus random combinations, under hostile memory and storage shapes (invalid encodings, lengths 2^12..2^64-1); every call kind to 0x64-0x66 from depth 1 and 3 with truncated/overflowing payloads; byte-mutated journal programs; Aspect-bound call trees with a failure injected at a join-point firing. No panic may escape, no worker may die, bookkeeping must be closed and a follow-up call announced as a depth-0 Start.",
             "Initialised host as an embedding chain provides; a crash needing one specific 256-bit value outside the boundary sets and random draws is not found; one unbounded-loop finding is recorded as known.",
             "DESIGN.md §3 C03"),
     "C20": ("exploration",
             "work-counter monitor at the host boundary: state reads (StateDB proxy) and allocated bytes (runtime TotalAlloc, sampled outside the recorder's own copies) per instruction against gas-proportional bounds, with a read-cap sentinel",
-            "Between consecutive instruction callbacks: state reads <= 16 + gas/20 and allocation <= 64 KiB + 64*gas + 4*memory, over C03's hostile generators (length fields 2^12..2^256-1 presented to journal instructions and Artela precompiles), single-instruction programs for every length-taking standard opcode with lengths 2^10..2^64 on 4 forks, and the standard gadget workload as the no-false-alarm control.",
+            "Between consecutive instruction callbacks: state reads <= 16 + gas/20 and allocation <= 64 KiB + 64*gas + 4*memory, over C03's hostile generators (length fields 2^12..2^256-1 presented to journal instructions and Artela precompiles), single-instruction programs for every length-taking standard opcode with lengths 2^10..2^64 on 4 forks, standard precompiles with hostile length fields (modexp length triples up to 2^26, blake2f rounds), and the standard gadget workload as the no-false-alarm control.",
             "Hashing/copying work is observed through allocation and state reads; intervals in which the event log itself grows are not measured; the reference-journal length amplification is recorded as known findings.",
             "DESIGN.md §3 C20"),
     "C17": ("exploration",
